@@ -35,7 +35,6 @@
 package main
 
 import (
-	"crypto/sha256"
 	"flag"
 	"fmt"
 	"go/ast"
@@ -53,6 +52,8 @@ import (
 )
 
 const decimalPath = "github.com/shopspring/decimal"
+const msgpPath = "github.com/tinylib/msgp/msgp"
+const msgpPath0 = "github.com/0chain/msgp/msgp"
 
 type kind int
 
@@ -159,7 +160,7 @@ func (e *env) clone() *env {
 type xl struct {
 	fset     *token.FileSet
 	info     *types.Info
-	src      string
+	srcs     map[string]string // file name -> source text
 	funcs    map[string]*fsig
 	order    []string // declaration order of functions
 	errNames []string
@@ -255,7 +256,8 @@ func (x *xl) typeExpr(e ast.Expr) (kind, string) {
 }
 
 func (x *xl) text(n ast.Node) string {
-	return x.src[x.fset.Position(n.Pos()).Offset:x.fset.Position(n.End()).Offset]
+	p, e := x.fset.Position(n.Pos()), x.fset.Position(n.End())
+	return x.srcs[p.Filename][p.Offset:e.Offset]
 }
 
 func (x *xl) isPkg(e ast.Expr, path string) bool {
@@ -1425,8 +1427,10 @@ func (x *xl) translate(s *fsig) {
 func (x *xl) emitFunc(s *fsig) string {
 	var b strings.Builder
 	pos := x.fset.Position(s.decl.Pos())
-	hdr := x.src[x.fset.Position(s.decl.Pos()).Offset:x.fset.Position(s.decl.Body.Lbrace).Offset]
-	fmt.Fprintf(&b, "/-- currency.go:%d  `%s` -/\n", pos.Line, strings.TrimSpace(hdr))
+	hp, he := x.fset.Position(s.decl.Pos()), x.fset.Position(s.decl.Body.Lbrace)
+	hdr := x.srcs[hp.Filename][hp.Offset:he.Offset]
+	_ = pos // no file:line in the output: the generated text must not depend on the file layout
+	fmt.Fprintf(&b, "/-- `%s` -/\n", strings.TrimSpace(hdr))
 	fmt.Fprintf(&b, "def %s", s.leanName)
 	for _, p := range s.params {
 		fmt.Fprintf(&b, " (%s : %s)", leanIdent(p.name), p.leanType)
@@ -1446,48 +1450,81 @@ func (x *xl) emitFunc(s *fsig) string {
 	return b.String()
 }
 
-// codecShape: for each codec method of currency_gen.go (MarshalMsg, UnmarshalMsg, Msgsize) the SET of msgp members
-// reachable from it through functions and methods of the same file (sorted) — independent of how the code is laid out
-func codecShape(path string) string {
-	fset := token.NewFileSet()
-	file, err := parser.ParseFile(fset, path, nil, 0)
-	if err != nil {
-		panic(xlateError{err.Error()})
-	}
+var codecMethods = []string{"MarshalMsg", "UnmarshalMsg", "Msgsize", "EncodeMsg", "DecodeMsg"}
+
+func fileFuncs(files []*ast.File) map[string]*ast.FuncDecl {
 	decls := map[string]*ast.FuncDecl{} // functions and methods by bare name
-	for _, d := range file.Decls {
-		if fd, ok := d.(*ast.FuncDecl); ok && fd.Body != nil {
-			decls[fd.Name.Name] = fd
+	for _, f := range files {
+		for _, d := range f.Decls {
+			if fd, ok := d.(*ast.FuncDecl); ok && fd.Body != nil {
+				decls[fd.Name.Name] = fd
+			}
 		}
 	}
-	var reach func(name string, seen map[string]bool, out map[string]bool)
-	reach = func(name string, seen map[string]bool, out map[string]bool) {
-		fd, ok := decls[name]
-		if !ok || seen[name] {
-			return
+	return decls
+}
+
+// reachFrom collects the functions of the package reachable from name (seen) and the msgp members they mention (out)
+func reachFrom(decls map[string]*ast.FuncDecl, name string, seen map[string]bool, out map[string]bool) {
+	fd, ok := decls[name]
+	if !ok || seen[name] {
+		return
+	}
+	seen[name] = true
+	ast.Inspect(fd.Body, func(n ast.Node) bool {
+		switch v := n.(type) {
+		case *ast.SelectorExpr:
+			if id, ok := v.X.(*ast.Ident); ok && id.Name == "msgp" {
+				out[v.Sel.Name] = true
+			} else {
+				reachFrom(decls, v.Sel.Name, seen, out) // a method of the package (z.Msgsize())
+			}
+		case *ast.CallExpr:
+			if id, ok := v.Fun.(*ast.Ident); ok {
+				reachFrom(decls, id.Name, seen, out)
+			}
 		}
-		seen[name] = true
-		ast.Inspect(fd.Body, func(n ast.Node) bool {
-			switch v := n.(type) {
-			case *ast.SelectorExpr:
-				if id, ok := v.X.(*ast.Ident); ok && id.Name == "msgp" {
-					out[v.Sel.Name] = true
-				} else {
-					reach(v.Sel.Name, seen, out) // a method of this file (z.Msgsize())
-				}
-			case *ast.CallExpr:
-				if id, ok := v.Fun.(*ast.Ident); ok {
-					reach(id.Name, seen, out)
+		return true
+	})
+}
+
+// codecFunctions: the msgp codec methods that exist and the unexported helpers reachable from them (by content, not
+// by file name); these are not translated
+func codecFunctions(files []*ast.File) map[string]bool {
+	decls := fileFuncs(files)
+	res := map[string]bool{}
+	for _, m := range codecMethods {
+		if fd, ok := decls[m]; ok && fd.Recv != nil {
+			seen := map[string]bool{}
+			reachFrom(decls, m, seen, map[string]bool{})
+			for n := range seen {
+				if n == m || !ast.IsExported(n) || fileFuncsIsCodec(n) {
+					res[n] = true
 				}
 			}
-			return true
-		})
+		}
 	}
+	return res
+}
+
+func fileFuncsIsCodec(n string) bool {
+	for _, m := range codecMethods {
+		if n == m {
+			return true
+		}
+	}
+	return false
+}
+
+// codecShape: for each codec method (MarshalMsg, UnmarshalMsg, Msgsize) the SET of msgp members reachable from it
+// through functions and methods of the package (sorted) — independent of how the code is laid out
+func codecShape(files []*ast.File) string {
+	decls := fileFuncs(files)
 	var sb strings.Builder
-	sb.WriteString("/-- currency_gen.go: the msgp members reachable from each codec method (through helpers of the file), sorted -/\ndef codecPrimitives : List (String × List String) := [")
+	sb.WriteString("/-- the msgp members reachable from each codec method of Coin (through helpers of the package), sorted -/\ndef codecPrimitives : List (String × List String) := [")
 	for i, m := range []string{"MarshalMsg", "UnmarshalMsg", "Msgsize"} {
 		out := map[string]bool{}
-		reach(m, map[string]bool{}, out)
+		reachFrom(decls, m, map[string]bool{}, out)
 		var names []string
 		for n := range out {
 			names = append(names, fmt.Sprintf("%q", n))
@@ -1505,6 +1542,11 @@ func codecShape(path string) string {
 type fakeImporter struct{ def types.Importer }
 
 func (f fakeImporter) Import(p string) (*types.Package, error) {
+	if p == msgpPath || p == msgpPath0 { // the codec methods are not translated; only their msgp members are listed
+		pk := types.NewPackage(p, "msgp")
+		pk.MarkComplete()
+		return pk, nil
+	}
 	if p == decimalPath { // only its names are used (syntactically); no need to type-check the library
 		pk := types.NewPackage(p, "decimal")
 		pk.MarkComplete()
@@ -1527,7 +1569,15 @@ func main() {
 		fmt.Fprintln(os.Stderr, "xlate: -out required")
 		os.Exit(2)
 	}
-	text, nf, ne, err := translateSource(filepath.Join(*repo, "core", "currency", "currency.go"), filepath.Join(*repo, "core", "currency", "currency_gen.go"))
+	// every non-test Go file of the package, whatever its name: the result does not depend on the file layout
+	all, _ := filepath.Glob(filepath.Join(*repo, "core", "currency", "*.go"))
+	var paths []string
+	for _, p := range all {
+		if !strings.HasSuffix(p, "_test.go") {
+			paths = append(paths, p)
+		}
+	}
+	text, nf, ne, err := translateSource(paths...)
 	if err != nil {
 		fmt.Fprintln(os.Stderr, "xlate:", err)
 		os.Exit(1)
@@ -1547,11 +1597,13 @@ func main() {
 var sharedFset = token.NewFileSet()
 var sharedImporter = importer.ForCompiler(sharedFset, "source", nil)
 
-// translateSource translates one Go file (and extracts the codec shape of codecPath unless it is empty)
+// translateSource translates the package made of the given Go files. The msgp codec methods of Coin (MarshalMsg,
+// UnmarshalMsg, Msgsize, …) and the helpers only they use are recognised by CONTENT and are not translated; for them
+// the reachable msgp primitives are listed (`codecPrimitives`).
 // lastFailed: the functions of the last translation that are outside the subset (name -> reason)
 var lastFailed map[string]string
 
-func translateSource(path, codecPath string) (text string, nfuncs, nerrs int, err error) {
+func translateSource(paths ...string) (text string, nfuncs, nerrs int, err error) {
 	defer func() {
 		if r := recover(); r != nil {
 			if xe, ok := r.(xlateError); ok {
@@ -1561,32 +1613,44 @@ func translateSource(path, codecPath string) (text string, nfuncs, nerrs int, er
 			panic(r)
 		}
 	}()
-	srcB, rerr := os.ReadFile(path)
-	if rerr != nil {
-		return "", 0, 0, rerr
-	}
-	x := &xl{fset: sharedFset, src: string(srcB), funcs: map[string]*fsig{}, errMsgs: map[string]string{}, errSet: map[string]bool{},
+	sort.Strings(paths)
+	x := &xl{fset: sharedFset, srcs: map[string]string{}, funcs: map[string]*fsig{}, errMsgs: map[string]string{}, errSet: map[string]bool{},
 		globals: map[string]kind{}, globalV: map[string]string{}, typeKind: map[string]kind{}, skipped: map[string]string{}, failed: map[string]string{}}
-	file, perr := parser.ParseFile(x.fset, path, srcB, parser.ParseComments)
-	if perr != nil {
-		return "", 0, 0, perr
+	var files []*ast.File
+	for _, path := range paths {
+		srcB, rerr := os.ReadFile(path)
+		if rerr != nil {
+			return "", 0, 0, rerr
+		}
+		x.srcs[path] = string(srcB)
+		file, perr := parser.ParseFile(x.fset, path, srcB, parser.ParseComments)
+		if perr != nil {
+			return "", 0, 0, perr
+		}
+		files = append(files, file)
 	}
 	x.info = &types.Info{Types: map[ast.Expr]types.TypeAndValue{}, Defs: map[*ast.Ident]types.Object{}, Uses: map[*ast.Ident]types.Object{}}
 	var typeErrs []string
 	conf := types.Config{Importer: fakeImporter{sharedImporter}, Error: func(err error) {
-		// the decimal library is not type-checked, so its members are "undefined"; every other type error is fatal
-		if !strings.Contains(err.Error(), "undefined: decimal.") {
+		// the decimal and msgp libraries are not type-checked, so their members are "undefined" (and what is computed
+		// from them has no type); every other type error is fatal
+		if !strings.Contains(err.Error(), "undefined: decimal.") && !strings.Contains(err.Error(), "undefined: msgp.") {
 			typeErrs = append(typeErrs, err.Error())
 		}
 	}}
-	conf.Check("currency", x.fset, []*ast.File{file}, x.info)
+	conf.Check("currency", x.fset, files, x.info)
 	if len(typeErrs) > 0 {
-		return "", 0, 0, fmt.Errorf("%s does not type-check:\n  %s", filepath.Base(path), strings.Join(typeErrs, "\n  "))
+		return "", 0, 0, fmt.Errorf("package does not type-check:\n  %s", strings.Join(typeErrs, "\n  "))
+	}
+	codec := codecFunctions(files)
+	var decls []ast.Decl
+	for _, f := range files {
+		decls = append(decls, f.Decls...)
 	}
 
 	var initDecl *ast.FuncDecl
 	var globalDecl = map[string]kind{}
-	for _, d := range file.Decls {
+	for _, d := range decls {
 		switch v := d.(type) {
 		case *ast.GenDecl:
 			switch v.Tok {
@@ -1599,7 +1663,7 @@ func translateSource(path, codecPath string) (text string, nfuncs, nerrs int, er
 						x.fail(ts.Pos(), "type declaration %s", x.text(ts))
 					}
 					x.typeKind[ts.Name.Name] = kU64
-					x.typeDefs = append(x.typeDefs, fmt.Sprintf("/-- currency.go:%d  `type %s` -/\nabbrev %s := U64", x.fset.Position(ts.Pos()).Line, x.text(ts), ts.Name.Name))
+					x.typeDefs = append(x.typeDefs, fmt.Sprintf("/-- `type %s` -/\nabbrev %s := U64", x.text(ts), ts.Name.Name))
 				}
 			case token.VAR:
 				for _, sp := range v.Specs {
@@ -1630,7 +1694,13 @@ func translateSource(path, codecPath string) (text string, nfuncs, nerrs int, er
 			}
 		case *ast.FuncDecl:
 			if v.Name.Name == "init" && v.Recv == nil {
+				if initDecl != nil {
+					x.fail(v.Pos(), "second init() function")
+				}
 				initDecl = v
+				continue
+			}
+			if codec[v.Name.Name] { // msgp codec method or a helper only it uses: see codecPrimitives
 				continue
 			}
 			func() {
@@ -1676,12 +1746,16 @@ func translateSource(path, codecPath string) (text string, nfuncs, nerrs int, er
 	}
 	for n := range globalDecl {
 		if _, ok := x.globals[n]; !ok {
-			x.fail(file.Pos(), "package variable %s is never initialised in init()", n)
+			x.fail(files[0].Pos(), "package variable %s is never initialised in init()", n)
 		}
 	}
 	// every function is translated on its own: one that is outside the subset is recorded in `untranslated` (and
 	// reported on stderr as WARNING) instead of aborting the file, so the other definitions, the model driver and
 	// the fallback comparison against the hand-written specification remain available
+	sort.Strings(x.order) // by name: the result does not depend on the order or the files of the declarations
+	sort.Strings(x.errNames)
+	sort.Strings(x.typeDefs)
+	sort.Strings(x.gorder)
 	for i := 0; i < len(x.order); i++ { // specialised copies are appended to x.order while translating
 		n := x.order[i]
 		if x.funcs[n].template {
@@ -1745,8 +1819,7 @@ func translateSource(path, codecPath string) (text string, nfuncs, nerrs int, er
 
 	// emit, callees first
 	var b strings.Builder
-	sum := sha256.Sum256(srcB)
-	fmt.Fprintf(&b, "/- GENERATED by go/xlate from core/currency/currency.go (sha256 %x…) — DO NOT EDIT.\n   Regenerated by bin/check before every Lean build; see go/xlate/main.go for the translated subset. -/\n", sum[:8])
+	b.WriteString("/- GENERATED by go/xlate from the non-test Go files of core/currency — DO NOT EDIT.\n   Regenerated by bin/check before every Lean build; see go/xlate/main.go for the translated subset.\n   Declarations are emitted by name (callees first), without file names or line numbers: the text does not depend on\n   how the package is split into files. -/\n")
 	b.WriteString("import Verif.Model.GoSem\nimport Verif.Model.F64\nimport Verif.Model.Dec\nset_option linter.unusedVariables false\nnamespace Verif.Gen.Currency\nopen Verif.GoSem Verif.F64 Verif.Dec\n\n")
 	if len(x.errNames) == 0 { // no error values: an empty type (cannot derive the instances for it)
 		b.WriteString("/-- the package-level error values `var ErrX = errors.New(..)`: none -/\ninductive ErrKind : Type\n\ninstance : DecidableEq ErrKind := fun a => nomatch a\ninstance : Repr ErrKind := ⟨fun a _ => nomatch a⟩\n\ndef ErrKind.msg : ErrKind → String := fun a => nomatch a\n\n")
@@ -1893,8 +1966,8 @@ func translateSource(path, codecPath string) (text string, nfuncs, nerrs int, er
 	}
 	// currency_gen.go (msgp codec, generated code): not translated — hand-modelled in Verif/Model/Msgp.lean; here only
 	// its shape is extracted (which msgp functions each method uses, in source order) and pinned by a theorem
-	if codecPath != "" {
-		b.WriteString(codecShape(codecPath))
+	if len(codec) > 0 {
+		b.WriteString(codecShape(files))
 	}
 	sort.Strings(emitted)
 	b.WriteString("/-- every function of currency.go that was translated (exported ones and local helpers) -/\ndef generatedFunctions : List String := [")
